@@ -80,6 +80,18 @@ func VerifC13TxWindow() {
 		vCover("same-window")
 		vAssert(err2 == nil && tx2.Nonce == tx.Nonce && tx2.ValidUntilBlock == tx.ValidUntilBlock, "C13/same-window-same-nonce-and-validity")
 	}
+	// ONE modifier is built per deployment stage and applied at every new block: each application reads the
+	// height of that moment
+	cur := h
+	reused := neoFSRuntimeTransactionModifier(func() uint32 { return cur })
+	tx3 := &transaction.Transaction{}
+	err3 := reused(&result.Invoke{State: "HALT"}, tx3)
+	cur = h2
+	tx4 := &transaction.Transaction{}
+	err4 := reused(&result.Invoke{State: "HALT"}, tx4)
+	vAssert(err3 == nil && err4 == nil && tx3.Nonce == tx.Nonce && tx3.ValidUntilBlock == tx.ValidUntilBlock, "C13/a-reused-modifier-follows-the-chain-height")
+	vAssert(tx4.Nonce == tx2.Nonce && tx4.ValidUntilBlock == tx2.ValidUntilBlock, "C13/a-reused-modifier-follows-the-chain-height")
+	vCoverIf(h/100 != h2/100, "reused-in-another-window")
 }
 
 // C13 (native-Go mode): the sharedTransactionData codec for EVERY value (20 symbolic sender bytes, every
